@@ -477,7 +477,11 @@ func (x *Exec) buildValue(st *State, t types.Type, prefix string, get func(strin
 		it := TInfo{K: TInt, Bits: 64, Signed: true}
 		g := func(c string) string { return get(prefix+c, Leaf{Path: c, TI: it, Sort: "Int"}) }
 		r := Slice{Arr: g("#arr"), Off: g("#off"), Len: g("#len"), Cap: g("#cap"), Elem: t.Underlying().(*types.Slice).Elem()}
-		x.sideFact(st, fmt.Sprintf("(and (>= %s 0) (>= %s 0) (<= 0 %s) (<= %s %s))", r.Arr, r.Off, r.Len, r.Len, r.Cap))
+		x.sideFact(st, fmt.Sprintf("(and (>= %s 0) (>= %s 0) (<= 0 %s) (<= %s %s) (<= (+ %s %s) %s))", r.Arr, r.Off, r.Len, r.Len, r.Cap, r.Off, r.Cap, maxSliceStr))
+		if st != nil && st.alloc != "" {
+			// a slice stored in memory refers to an array that exists already
+			x.sideFact(st, app("<", r.Arr, st.alloc))
+		}
 		return r
 	case TPtr, TFunc, TOther, TIface:
 		x.abort("pointer/func/interface typed heap elements are not supported (%s)", t)
